@@ -53,7 +53,7 @@ fn seq_key(s: &Seq) -> u64 {
     hash_of(&(s.variant % 6, s.ops.iter().map(|o| match o { SOp::Clone(k) => (0u8, *k, 0i64), SOp::ToDyn(k) => (1, *k, 0), SOp::Read(k) => (2, *k, 0), SOp::Write(k, v) => (3, *k, *v), SOp::Drop(k) => (4, *k, 0) }).collect::<Vec<_>>()))
 }
 fn ds_binary(with_features: bool) -> String {
-    format!("/verif/work/target-ds-{}/release/downstream", if with_features { "feat" } else { "nofeat" })
+    format!("{}/work/target-ds-{}/release/downstream", verif_root().display(), if with_features { "feat" } else { "nofeat" })
 }
 
 fn static_mutex_ref() -> Reference<i64> {
